@@ -187,7 +187,8 @@ class Report:
             "disagreements_checked": len(self.violations) + len(self.unconfirmed) + sum(self.known.values()),
             "obligations": len(self.obligations),
             "discharged": self.discharged,
-            "exhaustive": not (self.inconclusive or self.unconfirmed),
+            "exhaustive": not (self.inconclusive or self.unconfirmed or self.extra.get("stopped_early")
+                               or any("cut off" in k and v for k, v in self.vacuity.items())),
             "explanation": self.extra.pop("explanation", "bounded symbolic execution of the real code; see bounds"),
             "cases": self.cases,
             "paths": self.paths,
